@@ -1277,6 +1277,135 @@ fn poison_race_case(idx: Idx, victim: &Op, survivor: &Op, via_close: bool, ch: &
     RaceResult { problems, steps, outcome_key, labels }
 }
 
+// ---------------------------------------------------------------------------
+// Part G: a call cancelled while a close is draining it
+
+/// `victim` is in flight, `closer` (close / close_collection / database close) runs against
+/// it, and the victim's future may be dropped at any of its suspension points (a deviation).
+/// Once the cancellation has poisoned the handle, nothing more may be written under the
+/// collection prefix through it, it must stay poisoned (a close must not report success and
+/// turn it into Closed), and a reopen must satisfy the C01/C02 oracles with the victim
+/// all-or-nothing.
+fn cancel_during_close_case(idx: Idx, victim: &Op, closer: &Call, ch: &mut Chooser) -> RaceResult {
+    let (mut live, model) = setup(idx, true);
+    let coll = live.fx.coll.clone();
+    let db = live.fx.db.clone();
+    let next_id = coll.max_document_id() + 1;
+    let results: Rc<RefCell<Vec<Option<Outcome>>>> = Rc::new(RefCell::new(vec![None; 2]));
+    let mut problems = Vec::new();
+    live.ctl.clear_labels();
+    live.ctl.keep_labels(true);
+    live.ctl.set_gate(true);
+    live.ctl.set_post_gate(true);
+    let mut steps = 0usize;
+    // (journal length, handle state) right after the cancellation
+    let mut cancelled: Option<(usize, CollectionState)> = None;
+    let mut deadlock = None;
+    {
+        let mut sched = Sched::new();
+        let ctl = live.ctl.clone();
+        sched.on_switch = Some(Box::new(move |t| ctl.set_task(t)));
+        {
+            let (c2, op2, r2) = (coll.clone(), victim.clone(), results.clone());
+            sched.spawn(&format!("{victim:?}"), async move {
+                let out = exec_on(&c2, &op2).await.expect("plain op");
+                r2.borrow_mut()[0] = Some(out);
+            });
+            let (c2, d2, call2, r2) = (coll.clone(), db.clone(), closer.clone(), results.clone());
+            sched.spawn(&format!("{closer:?}"), async move {
+                let out = exec_call(&d2, &c2, &call2).await;
+                r2.borrow_mut()[1] = Some(out);
+            });
+        }
+        loop {
+            if steps > 6000 {
+                problems.push(("cancel-in-close|livelock".into(), "no completion within 6000 steps".into()));
+                break;
+            }
+            let (mut opts, mut costs) = sched.options();
+            let can_cancel = cancelled.is_none() && sched.state(0) == TaskState::Suspended;
+            if can_cancel {
+                opts.push(usize::MAX);
+                costs.push(if opts.len() == 1 { 0 } else { 1 });
+            }
+            if opts.is_empty() {
+                if !sched.all_done() {
+                    deadlock = Some((0..sched.len()).filter(|t| sched.state(*t) == TaskState::Suspended).map(|t| sched.name(t).to_string()).collect::<Vec<_>>());
+                }
+                break;
+            }
+            let pick = if opts.len() == 1 { 0 } else { ch.choose(&costs) };
+            if opts[pick] == usize::MAX {
+                sched.cancel(0);
+                cancelled = Some((live.ctl.journal_len(), coll.state()));
+            } else {
+                sched.step(opts[pick]);
+            }
+            steps += 1;
+        }
+    }
+    live.ctl.set_gate(false);
+    live.ctl.keep_labels(false);
+    live.ctl.set_task(99);
+    let labels = conc::canon_labels(&live.ctl.labels());
+    let outcomes = results.borrow().clone();
+    let outcome_key = util::fnv64(format!("{:?}|{:?}|{:?}", outcomes.iter().map(|o| o.as_ref().map(|x| x.short())).collect::<Vec<_>>(), cancelled.as_ref().map(|c| c.1), coll.state()).as_bytes());
+    if let Some(who) = deadlock {
+        problems.push(("cancel-in-close|deadlock".into(), format!("deadlock: {who:?} blocked forever")));
+        return RaceResult { problems, steps, outcome_key, labels };
+    }
+    let Some((j_cancel, state_at_cancel)) = cancelled else {
+        return RaceResult { problems, steps, outcome_key, labels };
+    };
+    let ck = call_kind(closer);
+    if state_at_cancel == CollectionState::Poisoned {
+        for (i, e) in live.ctl.journal().iter().enumerate().skip(j_cancel) {
+            if e.mutation.path().starts_with(PREFIX) {
+                problems.push((
+                    format!("cancel-in-close|poisoned-handle-wrote|{ck}"),
+                    format!("the cancellation of {victim:?} poisoned the handle, yet `{}` (journal #{i}, task {}) was written afterwards while {ck} ran", e.mutation.label(), e.task),
+                ));
+                break;
+            }
+        }
+        if coll.state() != CollectionState::Poisoned {
+            problems.push((
+                format!("cancel-in-close|left-poisoned-state|{ck}"),
+                format!("the handle was Poisoned by the cancellation of {victim:?} and is {:?} after {ck} returned {}", coll.state(), outcomes[1].as_ref().map(|o| o.short()).unwrap_or_default()),
+            ));
+        }
+        if outcomes[1].as_ref().map(|o| o.is_ok()).unwrap_or(false) && !matches!(closer, Call::DbClose) {
+            problems.push((format!("cancel-in-close|close-of-poisoned-handle-succeeded|{ck}"), format!("{ck} reported success on a handle poisoned during its drain")));
+        }
+    }
+    if coll.state() != CollectionState::Active {
+        let l = format!("{:?}", coll.state()).to_lowercase();
+        retained_battery(&live, &coll, &l, &mut problems);
+    }
+    if !problems.is_empty() {
+        return RaceResult { problems, steps, outcome_key, labels };
+    }
+    // reopen: the victim all-or-nothing, everything acknowledged before in effect
+    let victim_call = Call::Op(victim.clone());
+    let exp = expectation_from(&model, idx, &[&victim_call], &[], next_id);
+    if matches!(closer, Call::DbClose) {
+        let content = ctlstore::snapshot(live.cs.inner());
+        match util::block_on(crash::recover(&content, &exp, crash::Backend::Mem)) {
+            Ok(rec) => {
+                let (ps, _) = util::block_on(crash::check_state(&rec.fx, &exp));
+                for (sig, msg) in ps {
+                    problems.push((format!("cancel-in-close|after-{ck}|{sig}"), format!("cancel {victim:?} during {ck}, fresh connect: {msg}")));
+                }
+            }
+            Err(e) => problems.push((format!("cancel-in-close|after-{ck}|recover"), e)),
+        }
+    } else {
+        let _ = util::block_on(db.close_collection(COLL_NAME));
+        reopen_and_check(&mut live, idx, &exp, &mut problems, &format!("cancel-in-{ck}"));
+    }
+    RaceResult { problems, steps, outcome_key, labels }
+}
+
 fn main() {
     let mut run = Run::from_args("C06", "step", "model_checking");
     let idx = Idx::ALL;
@@ -1296,6 +1425,16 @@ fn main() {
             if let Some(res) = fault_case(idx, &call, &dirty, r["i"].as_u64().unwrap(), ans) {
                 problems = res.problems;
             }
+        } else if r["kind"] == "cancel-in-close" {
+            let victim: Op = serde_json::from_value(r["victim"].clone()).unwrap();
+            let closer: Call = serde_json::from_value(r["closer"].clone()).unwrap();
+            let choices: Vec<u32> = serde_json::from_value(r["choices"].clone()).unwrap();
+            let mut ch = Chooser::new(choices);
+            let res = cancel_during_close_case(idx, &victim, &closer, &mut ch);
+            if let Some(d) = ch.diverged {
+                vcore::report::machinery(&format!("replay diverged: {d}"));
+            }
+            problems = res.problems;
         } else if r["kind"] == "delete-crash" {
             if let Some(res) = delete_crash_case(idx, r["k"].as_u64(), r["dirty"].as_bool().unwrap_or(true)) {
                 problems = res.problems;
@@ -1539,6 +1678,87 @@ fn main() {
             }
             if po.capped {
                 run.cap_hit("time budget inside the poison-race part");
+            }
+        }
+    }
+
+    // ---- Part G: a call cancelled while a close drains it
+    {
+        let victims = [Op::Add(3), Op::Update(1, 0), Op::Update(1, 8), Op::Remove(1), Op::SaveExt(1)];
+        let closers = [Call::CollClose, Call::DbCloseCollection, Call::DbClose];
+        let bound = run.tier.pick(2, 3);
+        let mut pairs: Vec<(Op, Call)> = Vec::new();
+        for v in &victims {
+            for c in &closers {
+                pairs.push((v.clone(), c.clone()));
+            }
+        }
+        struct GOut {
+            v: Op,
+            c: Call,
+            machinery: Option<String>,
+            found: Vec<(Vec<u32>, Vec<(String, String)>)>,
+            execs: u64,
+            steps: u64,
+            keys: Vec<u64>,
+            capped: bool,
+        }
+        let outs = util::par_map(pairs, threads, |(v, c)| {
+            let mut go = GOut { v: v.clone(), c: c.clone(), machinery: None, found: vec![], execs: 0, steps: 0, keys: vec![], capped: false };
+            let a = cancel_during_close_case(idx, &v, &c, &mut Chooser::new(vec![]));
+            let b = cancel_during_close_case(idx, &v, &c, &mut Chooser::new(vec![]));
+            if a.labels != b.labels || a.outcome_key != b.outcome_key {
+                go.machinery = Some("nondeterministic replay".into());
+                return go;
+            }
+            let stats = choice::explore(
+                bound,
+                1,
+                deadline,
+                u64::MAX,
+                |ch| {
+                    let r = cancel_during_close_case(idx, &v, &c, ch);
+                    (r, ch.diverged.clone())
+                },
+                |choices, (r, div)| {
+                    go.execs += 1;
+                    go.steps += r.steps as u64;
+                    go.keys.push(r.outcome_key);
+                    if let Some(d) = div {
+                        go.machinery = Some(d);
+                        return false;
+                    }
+                    if !r.problems.is_empty() {
+                        go.found.push((choices, r.problems));
+                        return false;
+                    }
+                    true
+                },
+            );
+            go.capped = stats.capped;
+            go
+        });
+        for go in outs {
+            if let Some(m) = go.machinery {
+                vcore::report::machinery(&format!("cancel-in-close {:?} vs {:?}: {m}", go.v, go.c));
+            }
+            run.add("executions", go.execs);
+            run.add("evaluations", go.execs);
+            run.add("transitions", go.steps);
+            run.add("cancel_in_close_executions", go.execs);
+            run.distinct(util::fnv64(format!("cancel-in-close {:?} {:?}", go.v, go.c).as_bytes()));
+            outcome_kinds.extend(go.keys);
+            for (choices, ps) in go.found {
+                for (sig, msg) in ps {
+                    run.violation(Violation {
+                        signature: format!("C06|{sig}"),
+                        summary: format!("{:?} cancelled while {:?} runs, schedule {choices:?}: {msg}", go.v, go.c),
+                        replay: json!({"kind": "cancel-in-close", "victim": go.v, "closer": go.c, "choices": choices}),
+                    });
+                }
+            }
+            if go.capped {
+                run.cap_hit("time budget inside the cancel-in-close part");
             }
         }
     }
@@ -1805,7 +2025,7 @@ fn main() {
     run.add("states", (outcome_kinds.len() + cancel_states.len()) as u64);
     run.set("completed", json!(completed));
     run.set("cancel_handle_states", json!(cancel_states));
-    run.rule("delete-crash: delete_collection on a clean and on a dirty collection with the power failing after each of its backend mutations (and the completed call): a fresh process must reconnect; a collection that is still listed must be whole (C01/C02 oracles); one that is no longer listed must leave a usable name - after a retried delete by name nothing of it resurfaces in a collection created again under that name, which must itself be complete and accept writes; life-race: 2..3 (thorough 4) lifecycle calls on ONE collection name (close_collection, open_or_create with the index callback, delete_collection; 14 ordered sets) spawned together on a collection holding an acknowledged unflushed update, every schedule within the preemption bound: after a successful delete every handle is either retired and inert or an EMPTY collection created after it (listed, complete for a fresh process), nothing else remains under the prefix; without a delete the collection is listed, every Active handle agrees with the acknowledged history and close + reopen satisfies the C01/C02 oracles; fault: close / close_collection / flush with each of 4 unflushed acknowledged ops, every backend mutation of the call answered ErrBefore and ErrAfter: a non-Active handle rejects everything and writes nothing, reopening through the same database satisfies the C01/C02 oracles; poison-race: a call cancelled at any suspension point (a deviation) while another call is in flight, the caller then reopens through the same database - directly, and after a close_collection that fails on the poisoned handle - concurrently with the survivor, all schedules within the bound: the reopened handle satisfies the C01/C02 oracles with the survivor acknowledged and the victim all-or-nothing; cancel: each of 14 mutating APIs (clean and dirty collection) dropped after k polls for every k up to completion; race: each of 6 lifecycle transitions x every set of k operations from a 5-operation alphabet (always a dirty collection so flush/close write), every interleaving with <= B preemptions; oracle on the attributed mutation journal + retained-handle battery (10 mutating APIs, before and after set_read_only(false)) + reopen through the same database handle with the C01/C02 oracles; states = distinct (outcome vector, admission classification) kinds");
+    run.rule("cancel-in-close: each of 5 mutating calls in flight against each of close / close_collection / database close, the call's future dropped at any of its suspension points (a deviation), every schedule within the bound: once the cancellation has poisoned the handle nothing is written under the prefix, the handle stays Poisoned (the close must not succeed and turn it Closed), a reopen satisfies the C01/C02 oracles with the cancelled call all-or-nothing; delete-crash: delete_collection on a clean and on a dirty collection with the power failing after each of its backend mutations (and the completed call): a fresh process must reconnect; a collection that is still listed must be whole (C01/C02 oracles); one that is no longer listed must leave a usable name - after a retried delete by name nothing of it resurfaces in a collection created again under that name, which must itself be complete and accept writes; life-race: 2..3 (thorough 4) lifecycle calls on ONE collection name (close_collection, open_or_create with the index callback, delete_collection; 14 ordered sets) spawned together on a collection holding an acknowledged unflushed update, every schedule within the preemption bound: after a successful delete every handle is either retired and inert or an EMPTY collection created after it (listed, complete for a fresh process), nothing else remains under the prefix; without a delete the collection is listed, every Active handle agrees with the acknowledged history and close + reopen satisfies the C01/C02 oracles; fault: close / close_collection / flush with each of 4 unflushed acknowledged ops, every backend mutation of the call answered ErrBefore and ErrAfter: a non-Active handle rejects everything and writes nothing, reopening through the same database satisfies the C01/C02 oracles; poison-race: a call cancelled at any suspension point (a deviation) while another call is in flight, the caller then reopens through the same database - directly, and after a close_collection that fails on the poisoned handle - concurrently with the survivor, all schedules within the bound: the reopened handle satisfies the C01/C02 oracles with the survivor acknowledged and the victim all-or-nothing; cancel: each of 14 mutating APIs (clean and dirty collection) dropped after k polls for every k up to completion; race: each of 6 lifecycle transitions x every set of k operations from a 5-operation alphabet (always a dirty collection so flush/close write), every interleaving with <= B preemptions; oracle on the attributed mutation journal + retained-handle battery (10 mutating APIs, before and after set_read_only(false)) + reopen through the same database handle with the C01/C02 oracles; states = distinct (outcome vector, admission classification) kinds");
     run.assume("await granularity (one scheduling point per backend call and per async-lock wait); operations in one race set touch different documents so that a task blocked before its first backend call is waiting for admission (operation gate), not for a document lock");
     run.finish();
 }
